@@ -226,8 +226,29 @@ def w_files(job):
             if not _reproduces(small['src'], tuple(small['pos']), path, sig, []):
                 # the failure needs the requests made before it on the same project: keep the file, shrink the history
                 small = {'src': src, 'pos': list(pos), 'filename': path, 'history': [list(h) for h in _minimise_history(src, pos, path, sig, before)]}
+                sig = classify_history_case(sig, small, detail)
             sh.violation(sig, small, detail)
     return sh.result()
+
+
+def classify_history_case(sig, case, detail):
+    """A transparency failure that exists only after other requests on the same project, whose receiver is an instance of a
+    source class and whose differing names are all attributes that base classes assign through self, is the listed finding
+    (instance attribute tables memoised while an evaluation guard had cut a nested evaluation short)."""
+    if sig != 'transparency:attribute' or not case.get('history'):
+        return sig
+    import re as _re
+    m = _re.search(r"only marked (\[.*?\]), only unmarked (\[.*?\])", detail)
+    if not m:
+        return sig
+    diff = set(ast.literal_eval(m.group(1))) | set(ast.literal_eval(m.group(2)))
+    src = case['src'] if case.get('src') is not None else corpus.read(case['filename'])
+    line = core.plines(src)[case['pos'][0] - 1][:case['pos'][1]]
+    recv_end = len(line) - len(WORD.search(line).group()) - 1          # column of the dot
+    names = suppview.base_assigned_names(src, case['filename'], case['pos'][0], recv_end)
+    if names and diff and diff <= names:
+        return 'transparency:attribute:instance-attribute-table-depends-on-history'
+    return sig
 
 
 def _reproduces(src, pos, filename, sig, history):
@@ -362,10 +383,12 @@ def replay(case):
         check_position(proj, src, tuple(h), fn, info, Shard())
     bad = check_position(proj, src, tuple(case['pos']), fn, info, Shard())
     if bad:
-        return [{'signature': bad[0], 'case': case, 'detail': bad[1]}]
+        sig = classify_history_case(bad[0], dict(case, filename=fn), bad[1]) if case.get('history') else bad[0]
+        return [{'signature': sig, 'case': case, 'detail': bad[1]}]
     return []
 
 
-KNOWN_SIGS = {'C12-live-object-with-dynamic-attributes': lambda sig: sig == 'transparency:attribute:live-object-with-dynamic-attributes'}
+KNOWN_SIGS = {'C12-live-object-with-dynamic-attributes': lambda sig: sig == 'transparency:attribute:live-object-with-dynamic-attributes',
+              'C12-instance-attribute-table-depends-on-history': lambda sig: sig == 'transparency:attribute:instance-attribute-table-depends-on-history'}
 _listed = {e['id'] for e in core.load_known(PROPERTY) if e.get('status') == 'finding'}
 KNOWN = {fid: (lambda v, p=pred: p(v['signature'])) for fid, pred in KNOWN_SIGS.items() if fid in _listed}
